@@ -9,7 +9,7 @@ from lib import core
 from lib.core import czl
 from harness import smppref, vsess
 
-THEOREMS = ['C15_frames_of_whole_pdus', 'C15_every_write_announced', 'C15_gate', 'C15_modes', 'C15_handed_over_exactly_once', 'C15_read_pdu_survives_cancellation', 'C15_answer_after_hook', 'C15_nonvacuous']
+THEOREMS = ['C15_frames_of_whole_pdus', 'C15_every_write_announced', 'C15_gate', 'C15_modes', 'C15_handed_over_exactly_once', 'C15_read_pdu_survives_cancellation', 'C15_answer_after_hook', 'C15_nonvacuous', 'C15_actions_nonvacuous']
 IMPORTS = ['AV.Model.Wire']
 BIND_CMD = {'TRANSCEIVER': 9, 'TRANSMITTER': 2, 'RECEIVER': 1}
 BOUND_STATE = {'TRANSCEIVER': 4, 'TRANSMITTER': 2, 'RECEIVER': 3}
